@@ -125,6 +125,11 @@ def expectedAddWitnessSignSteps : List GStep := [.recoveredGuard, .force]
 def expectedAddWitnessForceSteps : List GStep := [.dupGuard, .store, .atThreshold, .belowThreshold]
 def expectedGenGroupSignSteps : List GStep := [.alreadyValid, .nilGuard, .storeRecovered, .emptyNote, .returnTrue]
 
+/-- Package-level variables the functions on the path may mention: only the curve order read by
+`recoverSignature`. A verification cache, a pooled point or a scratch buffer added to the path makes
+the regenerated list differ. -/
+def expectedPathGlobals : List String := ["recoverSignature:curveOrder"]
+
 /-- The statement order `update` (below) transcribes, for either value of the `bindsHash` fact. -/
 def expectedUpdateSteps (bindsHash : Bool) : List UStep :=
   [.typeCheck, .checkBlockExisted, .pkGuard] ++ (if bindsHash then [.bindHash] else []) ++
